@@ -5,21 +5,21 @@
 
 #[cfg(kani)]
 #[macro_use]
-#[path = "../../harness/support/vk_kani.rs"]
+#[path = "../../../build/weave/harness/support/vk_kani.rs"]
 pub(crate) mod vk;
 #[cfg(not(kani))]
 #[macro_use]
-#[path = "../../harness/support/vk_replay.rs"]
+#[path = "../../../build/weave/harness/support/vk_replay.rs"]
 pub(crate) mod vk;
 
 #[cfg(kani)]
-#[path = "../../harness/support/vh.rs"]
+#[path = "../../../build/weave/harness/support/vh.rs"]
 pub(crate) mod vh;
 #[cfg(kani)]
-#[path = "../../harness/support/mvec.rs"]
+#[path = "../../../build/weave/harness/support/mvec.rs"]
 pub(crate) mod mvec;
 #[cfg(kani)]
-#[path = "../../harness/support/mvec8.rs"]
+#[path = "../../../build/weave/harness/support/mvec8.rs"]
 pub(crate) mod mvec8;
 
 // under Kani `vec!` builds whichever `Vec` is in scope at the call site (the model Vec in the woven
